@@ -965,6 +965,18 @@ func c19Callbacks() []gojq.CompilerOption {
 		}),
 		gojq.WithFunction("cfa", 2, 2, func(v any, a []any) any { return a }), // returns the argument slice itself
 		gojq.WithFunction("cfapp", 0, 2, func(v any, a []any) any { return append(a, v) }), // grows the argument slice it was given
+		// one name registered by several options: every registration is a function of its own
+		gojq.WithFunction("cfr", 1, 1, func(v any, a []any) any { return a }),
+		gojq.WithFunction("cfr", 2, 2, func(v any, a []any) any { return a }),
+		gojq.WithFunction("cfr", 3, 3, func(v any, a []any) any { return append(a, v) }),
+		gojq.WithIterFunction("cir", 1, 1, func(v any, a []any) gojq.Iter {
+			n := 0
+			return &c19FuncIter{func() (any, bool) { n++; return a[0], n <= 2 }}
+		}),
+		gojq.WithIterFunction("cir", 2, 2, func(v any, a []any) gojq.Iter {
+			n := 0
+			return &c19FuncIter{func() (any, bool) { n++; return []any{a[0], a[1]}, n <= 2 }}
+		}),
 		gojq.WithFunction("cfv", 0, 2, func(v any, a []any) any { return len(a) }),
 		gojq.WithIterFunction("cit", 1, 1, func(v any, a []any) gojq.Iter {
 			x := a[0]
@@ -998,7 +1010,7 @@ func c19Callbacks() []gojq.CompilerOption {
 const c19Defs = `def cf0: [.]; def cfid: .; def cf1(a): a as $a | $a; def cf2(a; b): b as $b | a as $a | [$a, $b]; ` +
 	`def cf3(a; b; c): c as $c | b as $b | a as $a | . as $i | {a: $a, b: $b, c: $c, i: $i}; ` +
 	`def cfe(a): a as $a | if $a == 2 then error({bad: $a}) else [$a] end; def cfp(a): a as $a | if $a == 2 then error("plain failure") else $a end; ` +
-	`def cfa(a; b): b as $b | a as $a | [$a, $b]; def cfapp: [.]; def cfapp(a): a as $a | [$a, .]; def cfapp(a; b): b as $b | a as $a | [$a, $b, .]; def cfv: 0; def cfv(a): a as $a | 1; def cfv(a; b): b as $b | a as $a | 2; ` +
+	`def cfr(a): a as $a | [$a]; def cfr(a; b): b as $b | a as $a | [$a, $b]; def cfr(a; b; c): . as $i | c as $c | b as $b | a as $a | [$a, $b, $c, $i]; def cir(a): a as $a | ($a, $a); def cir(a; b): b as $b | a as $a | ([$a, $b], [$a, $b]); def cfa(a; b): b as $b | a as $a | [$a, $b]; def cfapp: [.]; def cfapp(a): a as $a | [$a, .]; def cfapp(a; b): b as $b | a as $a | [$a, $b, .]; def cfv: 0; def cfv(a): a as $a | 1; def cfv(a; b): b as $b | a as $a | 2; ` +
 	`def c19add($x; $n): if $x == null then $n elif ($x | type) == "number" then $x + $n else error("cannot add") end; ` +
 	`def cit(a): a as $a | ($a, c19add($a; 1), c19add($a; 2)); def cit0: empty; def cit1: . as $i | $i; def cite(a): a as $a | ($a, error("mid"), c19add($a; 2)); ` +
 	`def clazy(a; b): . as $i | b as $b | a as $a | ($a, $b, [$a, $b, $i]); `
@@ -1025,7 +1037,8 @@ func c19Leaves(quick bool) []string {
 		leaves = append(leaves, fmt.Sprintf("cf3(%s; %s; %s)", t[0], t[1], t[2]))
 	}
 	leaves = append(leaves, "cf1(cf1(cf1(7)))", "cit(cit(1))", "cf2(cit(1); cite(5))", "clazy(cit(1); cf2(1; (2,3)))", "cit(1) | cf1(.)", "cfid | cfid", "cfid.a", "cfid[]?", "cf0[0]", "cit1.a", "cit1 | .[]?",
-		"cf1(.a)[0]?", "cf1(.) | .a?", "cite(1)?", "cfe((1,2,3))?", "(cit(1) | select(. > 1))", "[cit(1)] | map(cf1(. * 2))", "cit(1) as $v | cf1($v + 10)", "cfa(1; 2) as $p | cfa(3; 4) | [$p, .]", "[cfa((1,2); (3,4))]", "cfa(cfa(1; 2); cfa(3; 4))", "cf1($x)", "cf1(f)", "cf1(break $l)", "cit(break $l)")
+		"cf1(.a)[0]?", "cf1(.) | .a?", "cite(1)?", "cfe((1,2,3))?", "(cit(1) | select(. > 1))", "[cit(1)] | map(cf1(. * 2))", "cit(1) as $v | cf1($v + 10)", "[cfr(1; 2), cfr(3; 4)]", `cfr(1; 2) as $p | ("x" | ltrimstr("y")) | $p`, "[cfr((1,2))]", "[cfr(1), cfr(2; 3), cfr(4; 5; 6)]", "cfr(1; 2; 3) as $p | cfr(7) | [$p, .]", "[cir(10; 13) | .[0] + 100]", "[cir((1,2)), cir(3; 4)]", "cir(1) as $x | cir(2; 3) | [$x, .]", "[cfr(cir(1); cir(2))]",
+		"cfa(1; 2) as $p | cfa(3; 4) | [$p, .]", "[cfa((1,2); (3,4))]", "cfa(cfa(1; 2); cfa(3; 4))", "cf1($x)", "cf1(f)", "cf1(break $l)", "cit(break $l)")
 	return leaves
 }
 
@@ -1166,7 +1179,7 @@ func c19RunCallbacks(c *engine.Ctx) {
 	if c.MineIdx(0) {
 		c.Eval()
 		og := RunText(`[builtins[] | select(test("^c(f|it|lazy)"))] | sort`, nil, 1<<20, opts...)
-		want := `[["cf0/0","cf1/1","cf2/2","cf3/3","cfa/2","cfapp/0","cfapp/1","cfapp/2","cfe/1","cfid/0","cfp/1","cfv/0","cfv/1","cfv/2","cit/1","cit0/0","cit1/0","cite/1","clazy/2"]]`
+		want := `[["cf0/0","cf1/1","cf2/2","cf3/3","cfa/2","cfapp/0","cfapp/1","cfapp/2","cfe/1","cfid/0","cfp/1","cfr/1","cfr/2","cfr/3","cfv/0","cfv/1","cfv/2","cit/1","cit0/0","cit1/0","cite/1","clazy/2"]]`
 		if og.String() != want {
 			c.Violation("builtins", "callback-vs-def", map[string]any{"program": "builtins", "want": want, "got": og.String()})
 		}
@@ -1254,7 +1267,7 @@ func init() {
 		Level: "exploration",
 		Rule: "(a) every builtin name/arity (from `builtins`) applied to up to 4 argument tuples, plus ~70 programs naming the environment, inputs, modules, files and command-only names, on 8 inputs, compiled WITHOUT options in a driver process that is run under 7 ambient configurations (environment empty/populated incl. HOME, JQ_LIBRARY_PATH, C19_SECRET; working directory / or one full of .jq/.json files named like the modules the programs import, with a ~/.jq; stdin empty or holding values; two time zones): the driver's output must be identical line by line (now and the time-zone dependent date functions exempt), and never show a planted marker. " +
 			"(b) WithVariables: all lists of 0..4 names x 0..5 values (order, repeated names, count mismatch, 10 invalid names); WithInputIter: 6 streams (incl. an error value) x 18 programs x 1..2 runs sharing the iterator against a queue model (values and number drawn); WithEnvironLoader: 6 pair lists x 9 programs against $e bound to the model map; WithFunction/WithIterFunction: all 496 ranges x arities 0..31 (accepted iff in range, callback sees input and arguments in order, once), invalid ranges panic, 12 x 12 x 4 overlapping registrations x iterator/non-iterator x arities 0..31. " +
-			"option values reused across 3 compilations (9^3 sequences of option lists) behave as fresh ones; 25 programs (regex builtins taking their flags from the input, and others) x all histories of 2 runs over 15 inputs on one Code x the observed input give what a fresh Code gives. (c) 17 Go callbacks (values, identity, error values, plain errors, variable arity, iterators of 0/1/3 values, an iterator failing in the middle, an iterator reading its arguments lazily) versus jq definitions with the same relation: ~170 calls (argument generators 1, (1,2), empty, error, .a, .[]?, nested calls) x the 43 one-hole contexts of the C01 towers nested to depth 2 x 4 inputs (thorough: depth 3 for every 7th call x 2 inputs); value sequences and catch-visible errors must be identical. A case is non-trivial when it yields a value.",
+			"option values reused across 3 compilations (9^3 sequences of option lists) behave as fresh ones; 25 programs (regex builtins taking their flags from the input, and others) x all histories of 2 runs over 15 inputs on one Code x the observed input give what a fresh Code gives. (c) 22 Go callbacks (incl. one name registered by several options) (values, identity, error values, plain errors, variable arity, iterators of 0/1/3 values, an iterator failing in the middle, an iterator reading its arguments lazily) versus jq definitions with the same relation: ~170 calls (argument generators 1, (1,2), empty, error, .a, .[]?, nested calls) x the 43 one-hole contexts of the C01 towers nested to depth 2 x 4 inputs (thorough: depth 3 for every 7th call x 2 inputs); value sequences and catch-visible errors must be identical. A case is non-trivial when it yields a value.",
 		Assume:         []string{"the driver process is the vcheck binary itself (`vcheck c19-ambient`), which links the /repo tree under test"},
 		Run:            c19Run,
 		Replay:         c19Replay,
